@@ -122,7 +122,7 @@ def check_frame_reader(ctx, rule, P, fn_key, buf_desc, strict=True):
     msv = strip_sites(ev.sites[mbb].value)
     from . import flow as F_
 
-    blind_bad = [b for b, d in sorted(ev.switch.items()) if d is not None and b != mbb and F_.reads_directly(d, (), targets=(msv,)) and not (strip_sites(d).op == "discr" and B.peel(strip_sites(d).a[0]) == B.peel(msv))]
+    blind_bad = [b for b, d in sorted(ev.switch.items()) if d is not None and b != mbb and F_.reads_directly(d, (), targets=(msv,))]
     ctx.ob(rule, fn_key + "/message-blind", not blind_bad, "no branch of %s tests the recovered message (its emptiness, length or bytes)%s" % (fn_key, "" if not blind_bad else ": " + show(strip_sites(ev.switch[blind_bad[0]]), 4)[:140]), where=where(fn, blind_bad[0] if blind_bad else mbb))
     L = B.lin_sub(en, st)
     Lterms = [k[1] for k in (B._lin(L) or (0, {}))[1]] if L is not None else []
@@ -490,6 +490,29 @@ def _zip_sources(P, gev, site):
     return out[0], out[1]
 
 
+def _tuple_table_source(g, gev):
+    """`for (label, point) in [(b"pk", pk), (b"c1", c1), ..]`: the loop runs over an array of (constant label, value)
+    pairs written out in the function: [(label bytes, value term)], else None."""
+    srcs = R.loop_sources(g)
+    if len(srcs) != 1:
+        return None
+    src = B.peel(srcs[0][1])
+    while src.op == "call" and B.cname(src) in ("slice::<impl [T]>::iter", "IntoIterator::into_iter", "Iterator::copied", "Iterator::cloned"):
+        src = B.peel(src.a[1][0])
+    if not (src.op == "agg" and src.a[0][0] == "array" and src.a[1]):
+        return None
+    out = []
+    for e in src.a[1]:
+        e = B.peel(e)
+        if not (e.op == "agg" and e.a[0][0] == "tuple" and len(e.a[1]) == 2):
+            return None
+        lab = B.nf(gev, e.a[1][0])
+        if not (len(lab) == 1 and lab[0][0] == "v" and lab[0][1].op == "const" and lab[0][1].a[0] == "bytes"):
+            return None
+        out.append((bytes.fromhex(lab[0][1].a[1]), e.a[1][1]))
+    return out
+
+
 def loop_transcript_events(P, g, gev, site, mapping):
     """Events of a transcript that a helper builds with `for (label, point) in LABELS.iter().zip(points)`:
     the loop is unrolled over the constant label table and the array handed over at the call site.  None when the
@@ -510,16 +533,21 @@ def loop_transcript_events(P, g, gev, site, mapping):
     inloop = [(b, s) for b, s in apps if b in body]
     if len(inloop) != 1 or not cfg.dominates(inloop[0][0], src_b):
         return None
-    la, lb = _zip_sources(P, gev, site)
-    if la is None or lb is None or len(la) != len(lb):
-        return None
-    labels = [x[1] for x in la] if all(x[0] == "label" for x in la) else None
-    points = [x[1] for x in lb] if all(x[0] == "term" for x in lb) else None
-    if labels is None or points is None:
-        labels = [x[1] for x in lb] if all(x[0] == "label" for x in lb) else None
-        points = [x[1] for x in la] if all(x[0] == "term" for x in la) else None
-    if labels is None or points is None:
-        return None
+    pairs = _tuple_table_source(g, gev)
+    if pairs is not None:
+        labels = [p_[0] for p_ in pairs]
+        points = [p_[1] for p_ in pairs]
+    else:
+        la, lb = _zip_sources(P, gev, site)
+        if la is None or lb is None or len(la) != len(lb):
+            return None
+        labels = [x[1] for x in la] if all(x[0] == "label" for x in la) else None
+        points = [x[1] for x in lb] if all(x[0] == "term" for x in lb) else None
+        if labels is None or points is None:
+            labels = [x[1] for x in lb] if all(x[0] == "label" for x in lb) else None
+            points = [x[1] for x in la] if all(x[0] == "term" for x in la) else None
+        if labels is None or points is None:
+            return None
     # body shape: append_message(<label element>, to_bytes(<point element>))
     s = inloop[0][1]
     pay = strip_sites(s.args[2])
